@@ -651,6 +651,56 @@ impl Fam for Outer {
     }
 }
 
+// ---- round-7 additions: composite map keys, deeper option nesting, a recursive struct
+
+#[derive(Serialize, Deserialize, Clone, Debug, PartialEq, Eq, PartialOrd, Ord)]
+#[serde(rename_all = "kebab-case")]
+pub enum Color {
+    Red,
+    DarkGreen,
+    Blue2,
+}
+impl Fam for Color {
+    fn gen(rng: &mut Rng, _g: G) -> Self {
+        match rng.below(3) {
+            0 => Color::Red,
+            1 => Color::DarkGreen,
+            _ => Color::Blue2,
+        }
+    }
+    fn shape(&self) -> Shape {
+        Shape::UnitVariant(match self {
+            Color::Red => "red",
+            Color::DarkGreen => "dark-green",
+            Color::Blue2 => "blue2",
+        })
+    }
+    fn same(&self, o: &Self, _t: bool) -> bool {
+        self == o
+    }
+}
+
+#[derive(Serialize, Deserialize, Clone, Debug)]
+pub struct Nest {
+    pub color: Color,
+    pub next: Option<Box<Nest>>,
+    pub by_color: BTreeMap<Color, Option<E>>,
+    pub last: (Option<Color>, Vec<Color>),
+}
+impl Fam for Nest {
+    fn gen(rng: &mut Rng, g: G) -> Self {
+        let d = g.deeper();
+        let next = if g.depth < 4 && rng.chance(1, 2) { Some(Box::new(Nest::gen(rng, d))) } else { None };
+        Nest { color: Color::gen(rng, d), next, by_color: BTreeMap::<Color, Option<E>>::gen(rng, d), last: <(Option<Color>, Vec<Color>)>::gen(rng, d) }
+    }
+    fn shape(&self) -> Shape {
+        Shape::Struct(vec![("color", self.color.shape()), ("next", self.next.shape()), ("by_color", self.by_color.shape()), ("last", self.last.shape())])
+    }
+    fn same(&self, o: &Self, t: bool) -> bool {
+        self.color == o.color && self.next.same(&o.next, t) && self.by_color.same(&o.by_color, t) && self.last.same(&o.last, t)
+    }
+}
+
 // ---- std types whose serde impls take their own decisions (human-readable forms,
 // ---- struct-shaped impls written by hand in serde itself)
 
@@ -845,6 +895,7 @@ pub fn family() -> Vec<Entry> {
         BTreeMap<u8, String>, BTreeMap<char, i32>, BTreeMap<String, Vec<u8>>, BTreeMap<i64, Option<bool>>,
         Rec, E, Vec<E>, Option<E>, BTreeMap<String, E>, Outer,
         std::net::Ipv4Addr, std::net::IpAddr, std::net::SocketAddr, Option<std::net::IpAddr>, std::time::Duration, std::ops::Range<i32>,
+        Color, BTreeMap<Color, u8>, BTreeMap<(u8, bool), String>, BTreeMap<Option<u8>, i8>, BTreeMap<String, Option<E>>, Vec<BTreeMap<char, E>>, Option<Option<Option<bool>>>, Nest, Vec<(Option<()>, Vec<()>)>,
         std::num::NonZeroU16, std::num::Wrapping<i16>, std::borrow::Cow<'static, str>, std::path::PathBuf, KvMap, Vec<KvMap>,
     ]
 }
